@@ -210,7 +210,8 @@ func isCharClassPlus(re *syntax.Regexp) bool {
 // extractLiteral extracts bytes from a Literal node.
 // Returns nil if not a literal.
 func extractLiteral(re *syntax.Regexp) []byte {
-	if re.Op != syntax.OpLiteral {
+	// A case-folded literal stands for its whole fold orbit; it is not exact bytes.
+	if re.Op != syntax.OpLiteral || re.Flags&syntax.FoldCase != 0 {
 		return nil
 	}
 	// Convert runes to bytes (assuming ASCII for now)
